@@ -578,7 +578,7 @@ def r8_given_seed_is_used(ctx, rep, R='C11.R8'):
             if d in env:
                 return env[d]
             if is_in(d):
-                return ('in', kind)
+                return env.get(IN, ('in', kind))
             return 'other'
         if isinstance(e, ast.Constant):
             return 'none' if e.value is None else ('const', e.value)
@@ -663,7 +663,23 @@ def r8_given_seed_is_used(ctx, rep, R='C11.R8'):
     try:
         for kind in ('NONE', 'ZERO', 'NONZERO'):
             del finished[:]
-            for env in run_block(init.node.body, {}, kind) + finished:
+            # what get_options has already done to options.shuffle_seed (with --shuffle given)
+            env0 = {}
+            go = ctx.model.func('options.get_options')
+            from .common import guard_literals
+            for st in sorted((x for x in ast.walk(go.node) if isinstance(x, ast.Assign) and
+                              any(is_in(dotted(t)) for t in x.targets)), key=lambda x: x.lineno):
+                taken = True
+                for e, pos in guard_literals(ctx, go, st):
+                    if any(is_in(dotted(x)) for x in ast.walk(e) if dotted(x)):
+                        c = cond(e, env0, kind)
+                        if c is None:
+                            raise Undecided(norm(e))
+                        if c != pos:
+                            taken = False
+                if taken:
+                    env0[IN] = ev(st.value, env0, kind)
+            for env in run_block(init.node.body, dict(env0), kind) + finished:
                 n += 1
                 v = env.get('self.seed')
                 if kind == 'NONE':
